@@ -46,11 +46,16 @@ uint64_t varintBitReaderRead(varintBitReader *r, size_t nBits) {
 
     uint64_t result = 0;
     for (size_t i = 0; i < nBits; i++) {
-        size_t byteIdx = r->bitPos / 8;
-        size_t bitIdx = 7 - (r->bitPos % 8); /* MSB first */
+        /* Bits at or beyond totalBits are not part of the input: they read
+         * as zero. bitPos still advances, so callers can detect the overrun
+         * (bitPos > totalBits). */
+        if (r->bitPos < r->totalBits) {
+            size_t byteIdx = r->bitPos / 8;
+            size_t bitIdx = 7 - (r->bitPos % 8); /* MSB first */
 
-        if ((r->buffer[byteIdx] >> bitIdx) & 1) {
-            result |= (1ULL << (nBits - 1 - i));
+            if ((r->buffer[byteIdx] >> bitIdx) & 1) {
+                result |= (1ULL << (nBits - 1 - i));
+            }
         }
         r->bitPos++;
     }
@@ -147,8 +152,8 @@ size_t varintEliasGammaDecodeArray(const uint8_t *src, size_t srcBits,
     size_t decoded = 0;
     while (decoded < maxCount && varintBitReaderHasMore(&reader, 1)) {
         uint64_t value = varintEliasGammaDecode(&reader);
-        if (value == 0) {
-            break; /* Decode error */
+        if (value == 0 || reader.bitPos > reader.totalBits) {
+            break; /* Decode error or truncated input */
         }
         values[decoded++] = value;
     }
@@ -189,8 +194,8 @@ size_t varintEliasDeltaEncode(varintBitWriter *w, uint64_t value) {
 uint64_t varintEliasDeltaDecode(varintBitReader *r) {
     /* Read length in Gamma code */
     uint64_t lenN = varintEliasGammaDecode(r);
-    if (lenN == 0) {
-        return 0; /* Decode error */
+    if (lenN == 0 || lenN > 64) {
+        return 0; /* Decode error (a 64-bit value has at most 64 bits) */
     }
 
     size_t n = (size_t)lenN - 1;
@@ -231,8 +236,8 @@ size_t varintEliasDeltaDecodeArray(const uint8_t *src, size_t srcBits,
     size_t decoded = 0;
     while (decoded < maxCount && varintBitReaderHasMore(&reader, 1)) {
         uint64_t value = varintEliasDeltaDecode(&reader);
-        if (value == 0) {
-            break; /* Decode error */
+        if (value == 0 || reader.bitPos > reader.totalBits) {
+            break; /* Decode error or truncated input */
         }
         values[decoded++] = value;
     }
